@@ -272,6 +272,12 @@ def families(model, seed: int):
             for tt in list(m.types_all(x.split("?")[0]))[:3]:
                 calls.append({"k": "sid_of_sid", "s": tt + ":" + x})
                 calls.append({"k": "sid", "s": tt + ":" + x})
+        # the same query text on a search and on plain Sids (queries are parsed, expanded and re-serialised by searches)
+        qtexts = [x.split("?", 1)[1] for x in strings if "?" in x]
+        for qt in qtexts[:2]:
+            calls.append({"k": "sid", "s": s + "?" + qt})
+            calls.append({"k": "sid", "s": "/".join(segs[:-1]) + "?" + qt})
+            calls.append({"k": "unfold", "s": "/".join(["*"] * n) + "?" + qt, "u": False, "e": False, "style": "pos"})
         for x in strings[:4]:
             calls.append({"k": "sid", "s": x})
             calls.append({"k": "unfold", "s": x, "u": False, "e": True, "style": "kw"})
@@ -384,7 +390,9 @@ def run(ctx) -> Stats:
     if scale < 0.5:
         todo = [fam[:12] for fam in todo]
     elif ctx.quick:
-        todo = [fam[:33] for fam in todo]
+        # a different 33-call subset of the family per shard and seed (the whole family is covered over the shards)
+        frnd = random.Random(ctx.seed * 911 + ctx.shard)
+        todo = [frnd.sample(fam, min(33, len(fam))) for fam in todo]
     for fam in todo:
         enumerate_cases(ctx, "history", ({"hashseed": h, "max_size": ms, "calls": [a, b]} for a in fam for b in fam), evaluate, stats)
     stats.labels["family-pairs"] = sum(len(fam) ** 2 for fam in todo)
